@@ -76,3 +76,98 @@ Theorem sc_witness :
   sc_case false 4 4 3 = (repeat false 4, repeat false 3) /\ sc_case true 4 4 3 = (repeat false 4, repeat true 3) /\
   sc_case false 4 3 3 = (repeat false 3, repeat true 3).
 Proof. vm_compute. repeat split. Qed.
+
+(* =====================================================================================================================
+   Round 6 — the release step on every exit
+   ===================================================================================================================== *)
+
+(* the code aborts the receive side on every exit of exchangeStream *)
+Theorem sc_code_cancels_on_every_exit x : sc_cancels sc_code x = true.
+Proof. destruct x; reflexivity. Qed.
+
+(* ... so whatever the server does with its side of the stream, the exit of an exchange leaves the peer's account as
+   it was: the credit returns on every path *)
+Theorem sc_credit_returns_on_every_path v a : sc_release sc_code v a = a.
+Proof. unfold sc_release. rewrite sc_code_cancels_on_every_exit. reflexivity. Qed.
+
+(* which exits need it: a policy that aborts the receive side after a reply and at the deadline keeps the account for
+   every server behaviour (after a read error the server has finished its side itself) *)
+Theorem sc_sufficient_policy p v a : pol_reply p = true -> pol_ctx p = true -> sc_release p v a = a.
+Proof.
+  intros R C. unfold sc_release, sc_cancels. destruct v; cbn; rewrite ?R, ?C; try reflexivity; destruct (pol_err p); reflexivity.
+Qed.
+
+Lemma sc_do_code_acct a s : sa_stuck a = 0 -> sa_pending a = 0 ->
+  sa_cap (snd (sc_do sc_code a s)) = sa_cap a /\ sa_stuck (snd (sc_do sc_code a s)) = 0 /\ sa_pending (snd (sc_do sc_code a s)) = 0.
+Proof.
+  intros S P. destruct s as [v|]; cbn [sc_do].
+  - destruct (sc_used a <? sa_cap a); cbn [snd]; rewrite ?sc_credit_returns_on_every_path; auto.
+  - cbn. auto.
+Qed.
+
+(* every exchange a server answers gets its reply, whatever happened on the connection before *)
+Theorem sc_code_every_answer_delivered ss : forall a i v,
+  0 < sa_cap a -> sa_stuck a = 0 -> sa_pending a = 0 ->
+  nth_error ss i = Some (Sx v) ->
+  nth_error (fst (sc_run2 sc_code a ss)) i = Some (Some (match sc_exit_of v with ScxReply => true | _ => false end)) /\
+  sc_used (snd (sc_run2 sc_code a ss)) = 0.
+Proof.
+  induction ss as [|s r IH]; intros a i v C S P H; [destruct i; discriminate|].
+  cbn [sc_run2 fst snd]. destruct (sc_do_code_acct a s S P) as (C' & S' & P').
+  destruct i as [|i]; cbn [nth_error] in *.
+  - inversion H; subst s. split.
+    + cbn [sc_do]. unfold sc_used. rewrite S, P. cbn [Nat.add]. apply Nat.ltb_lt in C. rewrite C. reflexivity.
+    + clear H. assert (G : forall r a, sa_stuck a = 0 -> sa_pending a = 0 -> sc_used (snd (sc_run2 sc_code a r)) = 0).
+      { induction r0 as [|s0 r0 IH0]; intros a0 S0 P0; cbn [sc_run2 snd]; [unfold sc_used; lia|].
+        destruct (sc_do_code_acct a0 s0 S0 P0) as (_ & S1 & P1). apply IH0; assumption. }
+      apply G; assumption.
+  - apply (IH _ i v); [rewrite C'; exact C|exact S'|exact P'|exact H].
+Qed.
+
+(* ---- REFUTED: aborting the receive side only when the read failed ---- *)
+Lemma sc_stuck_full_forever p ss : forall a,
+  sa_cap a <= sa_stuck a ->
+  Forall (fun o => o = None \/ o = Some false) (fst (sc_run2 p a ss)) /\ sa_stuck (snd (sc_run2 p a ss)) = sa_stuck a.
+Proof.
+  induction ss as [|s r IH]; intros a H; cbn [sc_run2 fst snd]; [split; [constructor|reflexivity]|].
+  destruct s as [v|]; cbn [sc_do].
+  - assert (L : (sc_used a <? sa_cap a) = false) by (apply Nat.ltb_ge; unfold sc_used; lia). rewrite L. cbn [fst snd].
+    destruct (IH a H) as [F E]. split; [constructor; [right; reflexivity|exact F]|exact E].
+  - cbn [fst snd]. destruct (IH (mkAcct (sa_cap a) (sa_stuck a) 0) H) as [F E]. split; [constructor; [left; reflexivity|exact F]|exact E].
+Qed.
+
+Lemma sc_nofin_fills cap : forall k o, o + k = cap ->
+  snd (sc_run2 sc_only_on_error (mkAcct cap o 0) (repeat (Sx SvNoFin) k)) = mkAcct cap cap 0.
+Proof.
+  induction k as [|k IH]; intros o H; cbn [repeat sc_run2 snd].
+  - replace o with cap by lia. reflexivity.
+  - cbn [sc_do]. unfold sc_used. cbn [sa_stuck sa_pending sa_cap]. rewrite Nat.add_0_r.
+    assert (L : (o <? cap) = true) by (apply Nat.ltb_lt; lia). rewrite L. cbn. apply (IH (S o)). lia.
+Qed.
+
+(* as many correctly ANSWERED exchanges as the peer allows streams, against a server that does not FIN: every later
+   exchange on that (live, kept-alive) connection fails, and no pause heals it *)
+Theorem sc_only_on_error_wedges cap ss :
+  Forall (fun o => o = None \/ o = Some false)
+         (fst (sc_run2 sc_only_on_error (snd (sc_run2 sc_only_on_error (mkAcct cap 0 0) (repeat (Sx SvNoFin) cap))) ss)).
+Proof. rewrite (sc_nofin_fills cap cap 0) by lia. apply sc_stuck_full_forever. cbn. lia. Qed.
+
+(* the scenarios of the kind "streams", exhaustively over the generated ranges *)
+Definition sc_all_srv : list sc_srv := [SvFin; SvNoFin; SvLateFin; SvResetAfter; SvResetNow; SvShort; SvLie; SvSilent].
+Definition sc_is_reply (v : sc_srv) : bool := match sc_exit_of v with ScxReply => true | _ => false end.
+
+Definition sc_grid_code : bool :=
+  forallb (fun cap => forallb (fun ans => forallb (fun ab => forallb (fun k => forallb (fun n =>
+    match sc_case2 sc_code cap ans ab k n with
+    | (bad, aft, lft) => forallb negb bad && (length bad =? k) && forallb (fun b => b) aft && (length aft =? n) && (lft =? 0)
+    end) (seq 0 15)) (seq 0 9)) (filter (fun v => negb (sc_is_reply v)) sc_all_srv)) (filter sc_is_reply sc_all_srv)) (seq 1 6).
+
+Theorem sc_grid : sc_grid_code = true.
+Proof. vm_compute. reflexivity. Qed.
+
+Theorem sc_witness2 :
+  sc_case2 sc_only_on_error 4 SvNoFin SvLie 0 8 = ([], [true; true; false; false; false; false; false; false], 4) /\
+  sc_case2 sc_only_on_error 3 SvLateFin SvLie 0 7 = ([], [true; false; false; false; false; false; false], 0) /\
+  sc_case2 sc_code 4 SvNoFin SvLie 0 8 = ([], repeat true 8, 0) /\
+  sc_case2 sc_not_on_ctx 4 SvFin SvLie 4 3 = (repeat false 4, repeat false 3, 4).
+Proof. vm_compute. repeat split. Qed.
